@@ -311,7 +311,8 @@ class Report:
             # executed on behalf of another check (C16 ledger runs): no evidence, no verdict lines
             log("[subrun %s] %d candidate violations ignored here" % (self.prop, len(self.violations)))
             return 0
-        os.makedirs(EVID, exist_ok=True)
+        evid_dir = os.environ.get("VERIF_EVIDENCE_DIR", EVID)     # seeded-change trials write elsewhere
+        os.makedirs(evid_dir, exist_ok=True)
         os.makedirs(REPLAYS, exist_ok=True)
         wall = round(time.time() - self.t0, 2)
         lines = []
@@ -341,7 +342,7 @@ class Report:
             cov["known_findings_hit"] = {s: n for s, (k, n) in self.known_hits.items()}
         ev = {"property_id": self.prop, "tier": self.tier, "seed": SEED, "level": self.level, "coverage": cov,
               "assumptions": (assumptions or []) + self.assumptions, "wall_s": wall, "violations": nviol}
-        with open(os.path.join(EVID, self.prop + ".json"), "w") as f:
+        with open(os.path.join(evid_dir, self.prop + ".json"), "w") as f:
             json.dump(ev, f, indent=1, default=str)
         for l in lines:
             print(l, flush=True)
